@@ -429,11 +429,7 @@ func (g *coreGen) stmts(ind, depth, n int, vars []gvar, rets []string) []gvar {
 				}
 			}
 			g.kinds["assign"]++
-		case x < 40:
-			g.printVars(ind, local)
-		case depth <= 0:
-			g.printVars(ind, local)
-		case x < 37: // tiny bodies: exactly one short statement that the optimizer fuses as a whole (a bare call of a
+		case x < 35: // tiny bodies: exactly one short statement that the optimizer fuses as a whole (a bare call of a
 			// zero-argument function, a field read, x++) inside a construct whose jump distance is that body's length
 			g.kinds["tiny body"]++
 			body := pick(g.r, []string{"tick()", "tick()", "TK++", "TK += 2"})
@@ -469,6 +465,10 @@ func (g *coreGen) stmts(ind, depth, n int, vars []gvar, rets []string) []gvar {
 				g.line(ind, "}")
 			}
 			g.line(ind, "fmt.Println(\"tk\", TK)")
+		case x < 40:
+			g.printVars(ind, local)
+		case depth <= 0:
+			g.printVars(ind, local)
 		case x < 50: // if / else if / else
 			g.kinds["if"]++
 			g.line(ind, "if %s {", g.boolExpr(local, 2))
